@@ -155,7 +155,7 @@ def cmd_check(pid, tier, seed):
                 functions.setdefault(fid, dict(id=fid, back_end="kani"))
         if is_witness:
             refuted = [c for c in nchecks if c["verdict"] == "refuted"]
-            names = {c["name"] for c in refuted}
+            names = {c["name"].replace(" ", "_") for c in refuted}
             listed = {k["obligation"] for k in known}
             if r["status"] == "failed" and names and names <= listed:
                 for k in known:
@@ -163,7 +163,7 @@ def cmd_check(pid, tier, seed):
                         kf_lines.append("KNOWN-FINDING: property=%s %s [%s, witness harness %s]" % (pid, k["what"], k["obligation"], name))
             elif r["status"] == "failed":
                 for c in refuted:
-                    if c["name"] not in listed:
+                    if c["name"].replace(" ", "_") not in listed:
                         violations.append(dict(harness=name, meta=m, check=c, hspec=h))
             elif r["status"] == "ok":
                 log("note: known-finding witness %s no longer fails (entry is stale)" % name)
